@@ -13,7 +13,9 @@ ID = "C20"
 LEVEL = "exploration"
 RULE = ("seeded schedules of 1-3 reader and 0-2 writer threads doing 1-3 "
         "acquire/critical-section/release rounds on a real RWLock over "
-        "simulated mutexes (plus readers-only rendezvous runs); a run is "
+        "simulated mutexes (plus readers-only rendezvous runs; 30% of runs "
+        "let a thread read in one round and write in another; 20% use two "
+        "lock instances with nested use in a fixed order); a run is "
         "non-trivial if >= 1 pre-emption happened; distinct = distinct "
         "sha256 of the (thread, mutex-event) sequence")
 COMPONENTS_REAL = ["ecdsa._rwlock.RWLock", "ecdsa._rwlock._LightSwitch",
@@ -55,34 +57,53 @@ def gen_sched(r, nthreads, est_len):
     return cfg
 
 
+def _round(r, role, nlocks, allow_nested):
+    rd = dict(l=r.randrange(nlocks), role=role, cs=r.randrange(0, 4))
+    if allow_nested and nlocks == 2 and r.random() < 0.35:
+        # nested use of the second lock while holding the first; always in
+        # the order lock 0 -> lock 1, so the workload itself cannot create a
+        # lock-order cycle
+        rd["l"] = 0
+        rd["inner"] = dict(l=1, role=r.choice(["r", "r", "w"]),
+                           cs=r.randrange(0, 3))
+    return rd
+
+
 def generate(run_seed, tier):
     r = core.rng(run_seed, "config")
     scenario = "rendezvous" if r.random() < 0.15 else "mixed"
+    nlocks = 1
     threads = []
     if scenario == "rendezvous":
         for _ in range(r.choice([2, 2, 3])):
-            threads.append(dict(role="r", rounds=1, cs=r.randrange(0, 3)))
+            threads.append(dict(rounds=[dict(l=0, role="r",
+                                             cs=r.randrange(0, 3))]))
     else:
+        nlocks = 2 if r.random() < 0.2 else 1
+        mixed_roles = r.random() < 0.3
         nr = r.choice([1, 1, 2, 2, 3])
         nw = r.choice([0, 1, 1, 2, 2])
         if tier == "thorough" and r.random() < 0.15:
             nr, nw = r.choice([(3, 2), (4, 2), (3, 3)])
         if nr + nw < 2:
             nw = 1
-        for _ in range(nr):
-            threads.append(dict(role="r", rounds=r.choice([1, 1, 2, 3]),
-                                cs=r.randrange(0, 4)))
-        for _ in range(nw):
-            threads.append(dict(role="w", rounds=r.choice([1, 1, 2, 3]),
-                                cs=r.randrange(0, 4)))
+        for role in ["r"] * nr + ["w"] * nw:
+            rounds = []
+            for _ in range(r.choice([1, 1, 2, 3])):
+                rl = role
+                if mixed_roles and r.random() < 0.5:
+                    # the same thread reads in one round and writes in another
+                    rl = "w" if role == "r" else "r"
+                rounds.append(_round(r, rl, nlocks, True))
+            threads.append(dict(rounds=rounds))
         r.shuffle(threads)
     gran = r.choice(["instr", "instr", "lock"])
     est = 100 if gran == "instr" else 12
     rs = core.rng(run_seed, "sched")
-    return dict(scenario=scenario, threads=threads, gran=gran,
+    return dict(scenario=scenario, threads=threads, gran=gran, locks=nlocks,
                 warmup=r.choice(["none", "none", "w", "r", "rw"]),
                 sched=gen_sched(rs, len(threads),
-                                est * max(t["rounds"] for t in threads)))
+                                est * max(len(t["rounds"]) for t in threads)))
 
 
 _setup = {}
@@ -182,15 +203,17 @@ def execute(prog):
 
 
 def _execute(prog, rw, out):
+    nlocks = prog.get("locks", 1)
     try:
-        lock = rw["RWLock"]()
-        for ch in prog.get("warmup", "none"):
-            if ch == "w":
-                lock.writer_acquire()
-                lock.writer_release()
-            elif ch == "r":
-                lock.reader_acquire()
-                lock.reader_release()
+        locks_ = [rw["RWLock"]() for _ in range(nlocks)]
+        for lock in locks_:
+            for ch in prog.get("warmup", "none"):
+                if ch == "w":
+                    lock.writer_acquire()
+                    lock.writer_release()
+                elif ch == "r":
+                    lock.reader_acquire()
+                    lock.reader_release()
     except Exception as e:
         out["violation"] = core.violation(
             ID, "reusable", "warmup-" + type(e).__name__,
@@ -198,45 +221,67 @@ def _execute(prog, rw, out):
         return out
     kinds = None if prog["gran"] == "instr" else {"lock", "explicit"}
     s = sched.Scheduler(prog["sched"], step_cap=STEP_CAP, kinds=kinds)
-    mon = Monitor()
+    mons = [Monitor() for _ in range(nlocks)]
     nthreads = len(prog["threads"])
-    nreaders = sum(1 for t in prog["threads"] if t["role"] == "r")
     rendezvous = prog["scenario"] == "rendezvous"
+    nreaders = nthreads if rendezvous else 0
     barrier = sched.SimSemaphore(0)
     barrier.name = "barrier"
     arrived = [0]
     errors = []
-    locks = _find_locks(lock, rw)
+    mutexes = []
+    for lock in locks_:
+        mutexes.extend(_find_locks(lock, rw))
+    states = set()
 
     def snap():
-        mon.states.add("%d|%d|%s" % (
-            mon.r, mon.w, "".join("1" if l.held else "0" for l in locks)))
+        states.add("%s|%s" % (
+            ",".join("%d/%d" % (m.r, m.w) for m in mons),
+            "".join("1" if l.held else "0" for l in mutexes)))
+
+    def enter(t, rd):
+        lock = locks_[rd["l"] % nlocks]
+        mon = mons[rd["l"] % nlocks]
+        if rd["role"] == "r":
+            lock.reader_acquire()
+        else:
+            lock.writer_acquire()
+        mon.enter(rd["role"], t.tid)
+        snap()
+        if mon.bad:
+            s.abort("mutex")
+            raise sched.SimAbort()
+
+    def leave(t, rd):
+        lock = locks_[rd["l"] % nlocks]
+        mon = mons[rd["l"] % nlocks]
+        mon.leave(rd["role"])
+        if rd["role"] == "r":
+            lock.reader_release()
+        else:
+            lock.writer_release()
+        snap()
 
     def body_for(spec):
-        role = spec["role"]
-
         def body(t):
-            acq = lock.reader_acquire if role == "r" else lock.writer_acquire
-            rel = lock.reader_release if role == "r" else lock.writer_release
             try:
-                for _ in range(spec["rounds"]):
-                    acq()
-                    mon.enter(role, t.tid)
-                    snap()
-                    if mon.bad:
-                        s.abort("mutex")
-                        raise sched.SimAbort()
+                for rd in spec["rounds"]:
+                    enter(t, rd)
                     if rendezvous:
                         arrived[0] += 1
                         if arrived[0] == nreaders:
                             barrier.release(nreaders - 1)
                         else:
                             barrier.acquire()
-                    for _ in range(spec["cs"]):
+                    for _ in range(rd.get("cs", 0)):
                         s.yield_point("explicit")
-                    mon.leave(role)
-                    rel()
-                    snap()
+                    inner = rd.get("inner")
+                    if inner and nlocks > 1:
+                        enter(t, inner)
+                        for _ in range(inner.get("cs", 0)):
+                            s.yield_point("explicit")
+                        leave(t, inner)
+                    leave(t, rd)
             except sched.SimAbort:
                 raise
             except Exception as e:
@@ -251,25 +296,28 @@ def _execute(prog, rw, out):
         return out
     s.run()
     out["steps"] = s.global_step
-    out["ops"] = sum(t["rounds"] for t in prog["threads"])
+    out["ops"] = sum(len(t["rounds"]) for t in prog["threads"])
     out["nontrivial"] = s.preemptions >= 1
     out["digest"] = hashlib.sha256(repr(s.events).encode()).hexdigest()[:16]
-    out["states"] = mon.states
+    out["states"] = states
     out["trace"] = s.trace
     core.bump(out["faults"], "preemption", s.preemptions)
-    if mon.max_r >= 2:
+    if any(m.max_r >= 2 for m in mons):
         core.bump(out["probes"], "two_readers_inside")
     if _saw_block(s):
         core.bump(out["probes"], "acquire_blocked")
     if _writer_blocked_reader(s, prog):
         core.bump(out["probes"], "writer_blocked_reader")
+    if nlocks > 1:
+        core.bump(out["probes"], "two_lock_instances")
     for th in s.threads:
         if th.exc is not None:
             errors.append((th.tid, th.exc))
     reason = s.abort_reason
-    if mon.bad:
+    bad = next((m.bad for m in mons if m.bad), None)
+    if bad:
         out["violation"] = core.violation(
-            ID, "mutex", mon.bad[0], mon.bad[1],
+            ID, "mutex", bad[0], bad[1],
             dict(events=s.events[-60:], trace=s.trace))
     elif errors:
         tid, e = errors[0]
@@ -292,21 +340,22 @@ def _execute(prog, rw, out):
     elif reason:
         raise core.HarnessError("run aborted: %s" % reason)
     else:
-        # reusable: every holder has released; the lock must be available
+        # reusable: every holder has released; each lock must be available
         step = "start"
         try:
-            step = "writer"
-            lock.writer_acquire()
-            lock.writer_release()
-            step = "two-readers"
-            lock.reader_acquire()
-            lock.reader_acquire()
-            lock.reader_release()
-            lock.reader_release()
-            step = "writer-again"
-            lock.writer_acquire()
-            lock.writer_release()
-            if any(l.held for l in locks):
+            for li, lock in enumerate(locks_):
+                step = "writer"
+                lock.writer_acquire()
+                lock.writer_release()
+                step = "two-readers"
+                lock.reader_acquire()
+                lock.reader_acquire()
+                lock.reader_release()
+                lock.reader_release()
+                step = "writer-again"
+                lock.writer_acquire()
+                lock.writer_release()
+            if any(l.held for l in mutexes):
                 raise RuntimeError("a mutex is still held after all releases")
         except Exception as e:
             out["violation"] = core.violation(
@@ -370,17 +419,22 @@ def _saw_block(s):
 
 
 def _writer_blocked_reader(s, prog):
-    roles = [t["role"] for t in prog["threads"]]
+    """Some reader's acquire of a mutex completed only after a thread that
+    (also) writes released that mutex."""
+    writes = [any(rd["role"] == "w" or (rd.get("inner") or {}).get("role")
+                  == "w" for rd in t["rounds"]) for t in prog["threads"]]
+    reads = [any(rd["role"] == "r" for rd in t["rounds"])
+             for t in prog["threads"]]
     last_acq = {}
     for i, (tid, tag) in enumerate(s.events):
-        if tid >= len(roles):
+        if tid >= len(writes):
             continue
         if tag.startswith("acq:"):
             last_acq[(tid, tag[4:])] = i
-        elif tag.startswith("got:") and roles[tid] == "r":
+        elif tag.startswith("got:") and reads[tid]:
             j = last_acq.get((tid, tag[4:]))
             if j is not None and any(
-                    s.events[k][0] != tid and roles[s.events[k][0]] == "w"
+                    s.events[k][0] != tid and writes[s.events[k][0]]
                     and s.events[k][1] == "rel:" + tag[4:]
                     for k in range(j, i)):
                 return True
